@@ -153,6 +153,19 @@ def oracle(cls, d, committed, ledger, view_commit, view_new, state_commit=None, 
         r.close()
     r, err = RE.try_open(cls, d / "rec", "r")
     if r is None:
+        # a file set that does not open read-only must not open for patching either (on a scratch copy: r+/a may create files)
+        for mode in ("r+", "a"):
+            cp = d.parent / (d.name + "-rw")
+            shutil.rmtree(cp, ignore_errors=True)
+            shutil.copytree(d, cp)
+            r2, _ = RE.try_open(cls, cp / "rec", mode)
+            if r2 is not None:
+                info = f"{len(r2.ih5_files)} containers"
+                RE.safe_close(r2, commit=False)
+                shutil.rmtree(cp, ignore_errors=True)
+                return None, ("unopenable-set-opens-for-patching",
+                              f"the crashed file set is refused in mode 'r' ({type(err).__name__}: {str(err)[:80]}) but opens cleanly in mode '{mode}' ({info})")
+            shutil.rmtree(cp, ignore_errors=True)
         return "fails-to-open", None
     try:
         files = [Path(p).name for p in r.ih5_files]
